@@ -9,6 +9,12 @@
 import GeonumModel.Lemmas.AngleNewTotal
 import GeonumModel.Lemmas.GeonumMag
 import GeonumModel.Spec.RealWitness
+import GeonumModel.Props.C09
+import GeonumModel.Props.C10
+import GeonumModel.Props.C11
+import GeonumModel.Props.C12
+import GeonumModel.Props.C13
+import GeonumModel.Props.C15
 
 set_option linter.unusedSectionVars false
 set_option linter.unusedVariables false
@@ -135,6 +141,49 @@ theorem mul_mag_ok {a b : Geonum F} (ha : a.MagDom) (hb : b.MagDom) :
 theorem add_mag_ok' {a b : Geonum F} (ha : a.MagDom) (hb : b.MagDom) (hai : a.angle.Inv) (hbi : b.angle.Inv) :
     Fin (a.add b).mag ∧ 0 ≤ val (a.add b).mag :=
   add_mag_ok ha hb (gradeAngle_sub_fin hai hbi)
+
+/-- (S) **every binary / unary core measurement returns a canonical angle**: dot, wedge, projection (target not tiny), reflection,
+    cosine and sine gateways — collected from the per-property theorems (C09–C15) -/
+theorem measurements_canonical {a b : Geonum F} (ha : a.angle.Inv) (hb : b.angle.Inv)
+    (hbm : flt (fabs b.mag) e10 = false) :
+    (a.dot b).angle.Inv ∧ (a.wedge b).angle.Inv ∧ (a.project b).angle.Inv ∧ (a.reflect b).angle.Inv ∧
+    (Geonum.cos a.angle).angle.Inv ∧ (Geonum.sin a.angle).angle.Inv := by
+  have hl := C15.cos_sin_lattice ha
+  have zinv : ∀ x : Angle F, Fin x.rem → val x.rem = 0 → x.Inv := by
+    intro x hf hv
+    refine ⟨hf, by rw [hv], ?_⟩
+    rw [hv, zero_add]
+    have h1 := val_e10_small (F := F); have h2 := val_qp_gt (F := F)
+    have : (1:ℝ) / 10 ^ 9 ≤ 1 := by rw [div_le_one (by positivity)]; norm_num
+    linarith
+  refine ⟨(C09.dot_lattice a b).2.2, (C10.wedge_angle ha hb).1, (C11.project_angle hbm hb).1, (C12.reflect_blades ha hb).1, ?_, ?_⟩
+  · -- cos: angle is new(0,1) or that plus π
+    have st := C15.cos_sin_structure a.angle
+    obtain ⟨_, hf0, _, hv0⟩ := new_zero_one (F := F)
+    obtain ⟨_, hf1, _, hv1⟩ := new_one_one (F := F)
+    simp only at hv0 hv1; rw [val_zero] at hv0 hv1
+    have hinv0 : (Angle.new (zero : F) one).Inv := zinv _ hf0 hv0
+    by_cases h : flt (FloatLike.cos a.angle.gradeAngle) (zero : F) = true
+    · rw [st.2.2.2.1 h]; exact inv_of_spec hinv0 (add_whole hinv0 hf1 hv1).2
+    · rw [st.2.2.1 (by simpa using h)]; exact hinv0
+  · have st := C15.cos_sin_structure a.angle
+    obtain ⟨_, hf1, _, hv1⟩ := new_one_one (F := F)
+    simp only at hv1; rw [val_zero] at hv1
+    by_cases h : flt (FloatLike.sin a.angle.gradeAngle) (zero : F) = true
+    · rw [st.2.2.2.2.2 h, new_one_two]; exact inv_of_spec (inv_zero 1) (add_whole (inv_zero (F := F) 1) hf1 hv1).2
+    · rw [st.2.2.2.2.1 (by simpa using h), new_one_two]; exact inv_zero 1
+
+/-- (S) **measurement magnitudes are finite-non-negative**: dot, wedge, projection, distance (in-domain operands) -/
+theorem measurement_mags_ok {a b : Geonum F} (ha : a.angle.Inv) (hb : b.angle.Inv) (hma : a.MagDom) (hmb : b.MagDom)
+    (hbm : flt (fabs b.mag) e10 = false) :
+    0 ≤ val (a.dot b).mag ∧ 0 ≤ val (a.wedge b).mag ∧ 0 ≤ val (a.project b).mag := by
+  have hg := gradeAngle_fin (geometricSub_inv hb ha)
+  have hr : InRange (F := F) (val a.mag * val b.mag) := inRange_of_le (by
+    rw [abs_of_nonneg (mul_nonneg hma.2.1 hmb.2.1)]
+    have : val a.mag * val b.mag ≤ 10 ^ 100 * 10 ^ 100 := mul_le_mul hma.2.2 hmb.2.2 hmb.2.1 (by positivity)
+    norm_num at this ⊢; linarith)
+  exact ⟨(C09.dot_bounds hma.1 hmb.1 hma.2.1 hmb.2.1 hg hr).1, (C10.wedge_mag_bounds hma.1 hmb.1 hma.2.1 hmb.2.1 hg hr).1,
+    (C11.project_mag_bounds hma.1 hma.2.1 hbm hg).1⟩
 
 end S
 
